@@ -8,12 +8,13 @@
 //
 // T2 (ops):
 //
-//	tx <action> <start>      expiry = node.go's expression with the compiled ValidityBlocks();
+//	tx <action> <cb>         cb = coordination block; start and expiry = node.go's expressions
+//	                         (window end block / compiled ValidityBlocks());
 //	                         the action is built by its real constructor; the extracted
 //	                         start/timeout expressions are evaluated with the compiled values and
 //	                         passed through the real walletTransactionExecutor.signTransaction;
 //	                         obs = what reached signBatch / the block waiter.
-//	hb <start> <active> <inactive> <rounds>
+//	hb <cb> <active> <inactive> <rounds>
 //	                         the real heartbeatAction.execute() `rounds` times with fakes.
 package main
 
@@ -65,6 +66,7 @@ var consts = map[string]uint64{
 	"signingAttemptAnnouncementActiveBlocks":          tbtc.VerifC46SigningAttemptAnnouncementActiveBlocks,
 	"signingAttemptMaximumProtocolBlocks":             tbtc.VerifC46SigningAttemptMaximumProtocolBlocks,
 	"signingAttemptCoolDownBlocks":                    tbtc.VerifC46SigningAttemptCoolDownBlocks,
+	"coordinationDurationBlocks":                      tbtc.VerifC46CoordinationDurationBlocks,
 }
 
 var durations = map[string]time.Duration{
@@ -98,7 +100,27 @@ type extracted struct {
 	exprs map[string]ast.Expr // name -> expression
 	// per action: struct field -> constant identifier wired by the constructor
 	wiring map[string]map[string]string
+	// per expression name: local variables (`x := expr`) of the function it was taken from
+	locals map[string]map[string]ast.Expr
 	errs   []string
+}
+
+// localDefs collects the single-variable short declarations `x := expr` of a function body
+// (first definition wins), so that an argument given as a local variable is followed to its
+// defining expression.
+func localDefs(fn *ast.FuncDecl) map[string]ast.Expr {
+	out := map[string]ast.Expr{}
+	ast.Inspect(fn, func(x ast.Node) bool {
+		if as, ok := x.(*ast.AssignStmt); ok && as.Tok == token.DEFINE && len(as.Lhs) == 1 && len(as.Rhs) == 1 {
+			if id, ok := as.Lhs[0].(*ast.Ident); ok {
+				if _, seen := out[id.Name]; !seen {
+					out[id.Name] = as.Rhs[0]
+				}
+			}
+		}
+		return true
+	})
+	return out
 }
 
 func repoDir() string {
@@ -180,7 +202,7 @@ func guardCond(n ast.Node) ast.Expr {
 }
 
 func extract() *extracted {
-	ex := &extracted{exprs: map[string]ast.Expr{}, wiring: map[string]map[string]string{}}
+	ex := &extracted{exprs: map[string]ast.Expr{}, wiring: map[string]map[string]string{}, locals: map[string]map[string]ast.Expr{}}
 	fail := func(format string, a ...interface{}) { ex.errs = append(ex.errs, fmt.Sprintf(format, a...)) }
 	for _, a := range txActions {
 		f, err := parseFile(a.file)
@@ -200,6 +222,9 @@ func extract() *extracted {
 		}
 		ex.exprs[a.name+"SignStart"] = calls[0].Args[2]
 		ex.exprs[a.name+"SignEnd"] = calls[0].Args[3]
+		ex.locals[a.name+"SignStart"] = localDefs(exe)
+		ex.locals[a.name+"SignEnd"] = ex.locals[a.name+"SignStart"]
+		ex.locals[a.name+"GuardFails"] = ex.locals[a.name+"SignStart"]
 		if g := guardCond(exe); g != nil {
 			ex.exprs[a.name+"GuardFails"] = g
 		} else {
@@ -232,6 +257,9 @@ func extract() *extracted {
 				ex.exprs["heartbeatSignEnd"] = wc[0].Args[1]
 				ex.exprs["heartbeatClaimEnd"] = wc[1].Args[1]
 				ex.exprs["heartbeatSignStart"] = sc[0].Args[2]
+				for _, n := range []string{"heartbeatSignEnd", "heartbeatClaimEnd", "heartbeatSignStart", "heartbeatGuardFails"} {
+					ex.locals[n] = localDefs(exe)
+				}
 			} else {
 				fail("heartbeat: expected two withCancelOnBlock calls and one sign call")
 			}
@@ -253,11 +281,14 @@ func extract() *extracted {
 				if as, ok := x.(*ast.AssignStmt); ok && len(as.Lhs) == 1 && len(as.Rhs) == 1 && selName(as.Lhs[0]) == "expiryBlock" {
 					ex.exprs["proposalExpiry"] = as.Rhs[0]
 				}
+				if as, ok := x.(*ast.AssignStmt); ok && len(as.Lhs) == 1 && len(as.Rhs) == 1 && selName(as.Lhs[0]) == "startBlock" {
+					ex.exprs["actionStart"] = as.Rhs[0]
+				}
 				return true
 			})
 		}
-		if ex.exprs["proposalExpiry"] == nil {
-			fail("node.go: expiryBlock assignment not found")
+		if ex.exprs["proposalExpiry"] == nil || ex.exprs["actionStart"] == nil {
+			fail("node.go: startBlock / expiryBlock assignment not found")
 		}
 		// the signing executor is built with the signingAttemptsLimit constant
 		ok := false
@@ -288,6 +319,18 @@ func extract() *extracted {
 	} else {
 		fail("%v", err)
 	}
+	if f, err := parseFile("coordination.go"); err == nil {
+		if fn := findFunc(f, "coordinationWindow", "endBlock"); fn != nil && len(fn.Body.List) == 1 {
+			if r, ok := fn.Body.List[0].(*ast.ReturnStmt); ok && len(r.Results) == 1 {
+				ex.exprs["windowEnd"] = r.Results[0]
+			}
+		}
+		if ex.exprs["windowEnd"] == nil {
+			fail("coordination.go: coordinationWindow.endBlock body not recognised")
+		}
+	} else {
+		fail("%v", err)
+	}
 	if f, err := parseFile("signing_loop.go"); err == nil {
 		if fn := findFunc(f, "", "signingAttemptMaximumBlocks"); fn != nil && len(fn.Body.List) == 1 {
 			if r, ok := fn.Body.List[0].(*ast.ReturnStmt); ok && len(r.Results) == 1 {
@@ -312,11 +355,43 @@ func resolveName(action, name string, wiring map[string]string) string {
 		return "start"
 	case "proposalExpiryBlock", "expiryBlock":
 		return "expiry"
+	case "coordinationBlock":
+		return "cb"
 	}
 	if c, ok := wiring[name]; ok {
 		return c
 	}
 	return name
+}
+
+// curLocals: local definitions of the function the expression being translated / evaluated was
+// taken from (set by withLocals); curDepth bounds the substitution depth.
+var (
+	curLocals map[string]ast.Expr
+	curDepth  int
+)
+
+var boundNames = map[string]bool{"start": true, "expiry": true, "cb": true, "validity": true}
+
+func withLocals(name string, f func()) {
+	prev := curLocals
+	curLocals = ex().locals[name]
+	defer func() { curLocals = prev }()
+	f()
+}
+
+// localOf returns the defining expression of a local variable that is neither one of the model's
+// variables nor a known constant / wired field.
+func localOf(e ast.Expr, resolved string) (ast.Expr, bool) {
+	id, ok := e.(*ast.Ident)
+	if !ok || boundNames[resolved] || curDepth > 8 {
+		return nil, false
+	}
+	if _, isConst := consts[resolved]; isConst {
+		return nil, false
+	}
+	d, ok := curLocals[id.Name]
+	return d, ok
 }
 
 func toLean(action string, e ast.Expr, wiring map[string]string) (string, error) {
@@ -328,7 +403,13 @@ func toLean(action string, e ast.Expr, wiring map[string]string) (string, error)
 			return x.Value, nil
 		}
 	case *ast.Ident:
-		return resolveName(action, x.Name, wiring), nil
+		n := resolveName(action, x.Name, wiring)
+		if d, ok := localOf(x, n); ok {
+			curDepth++
+			defer func() { curDepth-- }()
+			return toLean(action, d, wiring)
+		}
+		return n, nil
 	case *ast.SelectorExpr:
 		return resolveName(action, x.Sel.Name, wiring), nil
 	case *ast.BinaryExpr:
@@ -357,6 +438,8 @@ func toLean(action string, e ast.Expr, wiring map[string]string) (string, error)
 			return "signingAttemptMaximumBlocks", nil
 		case "ValidityBlocks":
 			return "validity", nil
+		case "endBlock":
+			return "(windowEnd cb)", nil
 		}
 	}
 	return "", fmt.Errorf("untranslatable expression %T", e)
@@ -377,6 +460,11 @@ func eval(action string, e ast.Expr, wiring map[string]string, env map[string]ui
 		n := resolveName(action, selName(x.(ast.Expr)), wiring)
 		if v, ok := env[n]; ok {
 			return v, nil
+		}
+		if d, ok := localOf(x.(ast.Expr), n); ok {
+			curDepth++
+			defer func() { curDepth-- }()
+			return eval(action, d, wiring, env)
 		}
 		if v, ok := consts[n]; ok {
 			return v, nil
@@ -423,9 +511,21 @@ func eval(action string, e ast.Expr, wiring map[string]string, env map[string]ui
 			return uint64(tbtc.VerifC46SigningAttemptMaximumBlocks()), nil
 		case "ValidityBlocks":
 			return env["validity"], nil
+		case "endBlock":
+			return tbtc.VerifC46WindowEndBlock(env["cb"]), nil
 		}
 	}
 	return 0, fmt.Errorf("unevaluable expression %T", e)
+}
+
+// evalNamed evaluates the extracted expression `name` (following local variables of its function).
+func evalNamed(name, action string, wiring map[string]string, env map[string]uint64) (v uint64, err error) {
+	e, ok := ex().exprs[name]
+	if !ok {
+		return 0, fmt.Errorf("expression %s not extracted", name)
+	}
+	withLocals(name, func() { v, err = eval(action, e, wiring, env) })
+	return
 }
 
 var (
@@ -473,7 +573,9 @@ func facts() []string {
 			out = append(out, "raw def "+name+" : Nat := EXTRACTION_FAILED_"+name)
 			return
 		}
-		s, err := toLean(action, expr, e.wiring[action])
+		var s string
+		var err error
+		withLocals(name, func() { s, err = toLean(action, expr, e.wiring[action]) })
 		if err != nil {
 			out = append(out, "raw def "+name+" : Nat := UNTRANSLATABLE_"+name)
 			return
@@ -482,7 +584,10 @@ func facts() []string {
 	}
 	emit("signingAttemptMaximumBlocks", "", "", "Nat")
 	emit("signingLoopTimeout", "", "(start : Nat)", "Nat")
-	emit("proposalExpiry", "", "(start validity : Nat)", "Nat")
+	emit("windowEnd", "", "(cb : Nat)", "Nat")
+	emit("actionStart", "", "(cb : Nat)", "Nat")
+	emit("proposalExpiry", "", "(cb start validity : Nat)", "Nat")
+	out = append(out, fmt.Sprintf("nat compiledWindowEndOf1000 %d", tbtc.VerifC46WindowEndBlock(1000)))
 	for _, a := range append(append([]actionInfo{}, txActions...), actionInfo{name: "heartbeat"}) {
 		emit(a.name+"SignStart", a.name, "(start expiry : Nat)", "Nat")
 		emit(a.name+"SignEnd", a.name, "(start expiry : Nat)", "Nat")
@@ -576,13 +681,17 @@ func exec(op string) (string, string) {
 	switch {
 	case len(fs) == 3 && fs[0] == "tx":
 		a := actionByName(fs[1])
-		start, err := strconv.ParseUint(fs[2], 10, 63)
+		cb, err := strconv.ParseUint(fs[2], 10, 63)
 		if a == nil || err != nil {
 			return "bad-op", "bad"
 		}
 		w := e.wiring[a.name]
 		validity := a.validity()
-		expiry, err := eval("", e.exprs["proposalExpiry"], nil, map[string]uint64{"start": start, "validity": validity})
+		start, err := evalNamed("actionStart", "", nil, map[string]uint64{"cb": cb})
+		if err != nil {
+			return "eval-error " + err.Error(), "eval-error"
+		}
+		expiry, err := evalNamed("proposalExpiry", "", nil, map[string]uint64{"cb": cb, "start": start, "validity": validity})
 		if err != nil {
 			return "eval-error " + err.Error(), "eval-error"
 		}
@@ -594,17 +703,17 @@ func exec(op string) (string, string) {
 				env[c] = p.SigningTimeoutSafetyMarginBlocks
 			}
 		}
-		g, err := eval(a.name, e.exprs[a.name+"GuardFails"], w, env)
+		g, err := evalNamed(a.name+"GuardFails", a.name, w, env)
 		if err != nil {
 			return "eval-error " + err.Error(), "eval-error"
 		}
-		head := fmt.Sprintf("expiry=%d margin=%d bcast=%d delay=%d", expiry, p.SigningTimeoutSafetyMarginBlocks,
+		head := fmt.Sprintf("start=%d expiry=%d margin=%d bcast=%d delay=%d", start, expiry, p.SigningTimeoutSafetyMarginBlocks,
 			uint64(p.BroadcastTimeout/time.Second), uint64(p.BroadcastCheckDelay/time.Second))
 		if g != 0 {
 			return head + " guard-fails", a.name + "+guard"
 		}
-		s, err1 := eval(a.name, e.exprs[a.name+"SignStart"], w, env)
-		t, err2 := eval(a.name, e.exprs[a.name+"SignEnd"], w, env)
+		s, err1 := evalNamed(a.name+"SignStart", a.name, w, env)
+		t, err2 := evalNamed(a.name+"SignEnd", a.name, w, env)
 		if err1 != nil || err2 != nil {
 			return "eval-error", "eval-error"
 		}
@@ -621,7 +730,7 @@ func exec(op string) (string, string) {
 		}
 		return fmt.Sprintf("%s signStart=%d signEnd=%d", head, got[0], blocks[0]), a.name
 	case len(fs) == 5 && fs[0] == "hb":
-		start, err := strconv.ParseUint(fs[1], 10, 63)
+		cb, err := strconv.ParseUint(fs[1], 10, 63)
 		active, err2 := strconv.Atoi(fs[2])
 		inactive, err3 := strconv.Atoi(fs[3])
 		rounds, err4 := strconv.Atoi(fs[4])
@@ -629,7 +738,11 @@ func exec(op string) (string, string) {
 			return "bad-op", "bad"
 		}
 		validity := heartbeatValidity()
-		expiry, err := eval("", e.exprs["proposalExpiry"], nil, map[string]uint64{"start": start, "validity": validity})
+		start, err := evalNamed("actionStart", "", nil, map[string]uint64{"cb": cb})
+		if err != nil {
+			return "eval-error " + err.Error(), "eval-error"
+		}
+		expiry, err := evalNamed("proposalExpiry", "", nil, map[string]uint64{"cb": cb, "start": start, "validity": validity})
 		if err != nil {
 			return "eval-error " + err.Error(), "eval-error"
 		}
@@ -660,7 +773,7 @@ func exec(op string) (string, string) {
 		if nerr > 0 {
 			tag += "+hberr"
 		}
-		return fmt.Sprintf("expiry=%d signStarts=%s claims=%d errors=%d deadlines=%s", expiry, hx.JoinInts(signs), claims, nerr, hx.JoinInts(blocks)), tag
+		return fmt.Sprintf("start=%d expiry=%d signStarts=%s claims=%d errors=%d deadlines=%s", start, expiry, hx.JoinInts(signs), claims, nerr, hx.JoinInts(blocks)), tag
 	}
 	return "bad-op", "bad"
 }
